@@ -26,6 +26,7 @@ type ufac struct {
 	features []string
 	noDup    bool // no second use of a grouping
 	noScoped bool // no groupings defined inside data nodes
+	noStatus bool // no status on uses / augments
 	// steering of the next group() call (a chain of scoped groupings of one name through a module-level grouping)
 	want       map[string]any // a child that must be among the nodes moved
 	wantScoped *bool          // scoped or not, instead of by chance
@@ -286,6 +287,19 @@ func (u *ufac) group(parent map[string]any, kidsKey string, depth int, forceB bo
 			c := tc[r.Intn(len(tc))]
 			nk := carr(c.node, "kids")
 			cut := 1 + r.Intn(len(nk)-1)
+			// preferably a node whose later children contain a uses: "uses inside an augment inside a uses"
+			var withUses []astRef
+			for _, x := range tc {
+				xk := carr(x.node, "kids")
+				if lk := xk[len(xk)-1].(map[string]any); cstr(lk, "k") == "uses" && !cbool(lk, "_scopedUse") {
+					withUses = append(withUses, x)
+				}
+			}
+			if len(withUses) > 0 && r.Chance(60) {
+				c = withUses[r.Intn(len(withUses))]
+				nk = carr(c.node, "kids")
+				cut = 1 + r.Intn(len(nk)-1)
+			}
 			if cstr(c.node, "k") == "list" && cut < 1 {
 				cut = 1
 			}
@@ -316,9 +330,14 @@ func (u *ufac) group(parent map[string]any, kidsKey string, depth int, forceB bo
 			if ok {
 				c.node["kids"] = nk[:cut]
 				ag := map[string]any{"path": toAny(c.path), "kids": taken}
-				if r.Chance(40) {
+				if r.Chance(40) || (hasUses(map[string]any{"kids": taken}, "") && r.Chance(60)) {
 					if w := u.pickWhen(taken, !forceB); w != "" {
 						ag["when"] = w
+					}
+				}
+				if !forceB && !u.noStatus && r.Chance(20) {
+					if st := u.pickStatus(taken, false); st != "" {
+						ag["status"] = st
 					}
 				}
 				augs = append(augs, ag)
@@ -386,6 +405,11 @@ func (u *ufac) group(parent map[string]any, kidsKey string, depth int, forceB bo
 	if whenLater {
 		if w := u.pickWhen(moved, true); w != "" {
 			use["when"] = w
+		}
+	}
+	if !forceB && !dupInside && !u.noStatus && r.Chance(20) {
+		if st := u.pickStatus(moved, len(refines) == 0 && len(augs) == 0); st != "" {
+			use["status"] = st
 		}
 	}
 	nk := append([]any{}, kids[:i]...)
@@ -735,6 +759,11 @@ func (u *ufac) augment(body []any) {
 		return
 	}
 	t := cands[r.Intn(len(cands))]
+	for _, e := range t.path { // a current augment may not refer to a deprecated node of its own module
+		if pn := findByName(u.plain, e); pn != nil && pn["status"] != nil {
+			return
+		}
+	}
 	kids := carr(t.node, "kids")
 	lo := 0
 	if cstr(t.node, "k") == "list" {
@@ -809,6 +838,11 @@ func (u *ufac) augment(body []any) {
 			a["when"] = w
 		}
 	}
+	if !dupInside && !u.noStatus && r.Chance(20) {
+		if st := u.pickStatus(taken, false); st != "" {
+			a["status"] = st
+		}
+	}
 	if cross {
 		for _, k := range taken {
 			markNs(k.(map[string]any), u.a2names)
@@ -880,13 +914,137 @@ func shadowing(c Case) bool {
 	return bad
 }
 
+// a refine or an augment whose path goes through (or ends at) a node that has a status: a current statement may
+// not refer to a deprecated definition of its own module, which the inline module has no counterpart for
+func statusOnPath(c Case) bool {
+	withStatus := map[string]bool{}
+	var mark func(kids []any)
+	mark = func(kids []any) {
+		for _, k := range kids {
+			kn := k.(map[string]any)
+			if kn["status"] != nil {
+				withStatus[cstr(kn, "n")] = true
+			}
+			mark(carr(kn, "kids"))
+		}
+	}
+	mark(carr(c, "plain"))
+	if len(withStatus) == 0 {
+		return false
+	}
+	bad := false
+	onPath := func(p []any) {
+		for _, e := range p {
+			if withStatus[e.(string)] {
+				bad = true
+			}
+		}
+	}
+	var walk func(kids []any)
+	walk = func(kids []any) {
+		for _, k := range kids {
+			kn := k.(map[string]any)
+			for _, rf := range carr(kn, "refines") {
+				onPath(carr(rf.(map[string]any), "path"))
+			}
+			for _, a := range carr(kn, "augments") {
+				onPath(carr(a.(map[string]any), "path"))
+				walk(carr(a.(map[string]any), "kids"))
+			}
+			walk(carr(kn, "kids"))
+		}
+	}
+	walk(carr(c, "body"))
+	for _, key := range []string{"mgroupings", "bgroupings"} {
+		for _, g := range carr(c, key) {
+			walk(carr(g.(map[string]any), "kids"))
+		}
+	}
+	for _, key := range []string{"maugments", "aaugments"} {
+		for _, a := range carr(c, key) {
+			onPath(carr(a.(map[string]any), "path"))
+			walk(carr(a.(map[string]any), "kids"))
+		}
+	}
+	return bad
+}
+
 func genYUsesCase(r *Rng, tier string) Case {
 	for {
 		c := genYUsesCase1(r, tier)
-		if !dupSiblings(carr(c, "plain")) && !shadowing(c) {
+		if !dupSiblings(carr(c, "plain")) && !shadowing(c) && !statusOnPath(c) {
+			if r.Chance(4) {
+				injectClash(r, c)
+			}
 			return c
 		}
 	}
+}
+
+// a deliberate clash: a uses that brings a node of a name its new siblings have already - a data node, or a
+// choice whose data nodes are all new (only the name of the choice is taken twice).  Factored and inline module
+// must both be refused.
+func injectClash(r *Rng, c Case) {
+	body := carr(c, "body")
+	plain := carr(c, "plain")
+	type place struct{ b, p map[string]any }
+	var places []place
+	var walk func(bk, pk []any)
+	walk = func(bk, pk []any) {
+		for _, k := range bk {
+			bn := k.(map[string]any)
+			kind := cstr(bn, "k")
+			if kind != "container" && kind != "list" {
+				continue
+			}
+			var pn map[string]any
+			for _, q := range pk {
+				if qm := q.(map[string]any); cstr(qm, "n") == cstr(bn, "n") {
+					pn = qm
+				}
+			}
+			if pn == nil {
+				continue
+			}
+			places = append(places, place{bn, pn})
+			walk(carr(bn, "kids"), carr(pn, "kids"))
+		}
+	}
+	walk(body, plain)
+	if len(places) == 0 {
+		return
+	}
+	pl := places[r.Intn(len(places))]
+	var victim map[string]any
+	for _, k := range carr(pl.p, "kids") { // a sibling-to-be in the inline module: prefer a choice
+		km := k.(map[string]any)
+		if cstr(km, "k") == "choice" && (victim == nil || r.Bool()) {
+			victim = km
+		}
+	}
+	if victim == nil {
+		for _, k := range carr(pl.p, "kids") {
+			km := k.(map[string]any)
+			if kk := cstr(km, "k"); kk == "leaf" || kk == "container" || kk == "leaf-list" {
+				victim = km
+			}
+		}
+	}
+	if victim == nil {
+		return
+	}
+	var dup map[string]any
+	if cstr(victim, "k") == "choice" {
+		dup = map[string]any{"k": "choice", "n": cstr(victim, "n"), "kids": []any{
+			map[string]any{"k": "case", "n": "cazz", "kids": []any{
+				map[string]any{"k": "leaf", "n": "fzz", "type": map[string]any{"base": "string"}}}}}}
+	} else {
+		dup = map[string]any{"k": "leaf", "n": cstr(victim, "n"), "type": map[string]any{"base": "string"}}
+	}
+	c["mgroupings"] = append(carr(c, "mgroupings"), map[string]any{"n": "gclash", "kids": []any{dup}})
+	pl.b["kids"] = append(carr(pl.b, "kids"), map[string]any{"k": "uses", "n": "uses-gclash", "g": "gclash"})
+	pl.p["kids"] = append(carr(pl.p, "kids"), deepCopy(dup))
+	c["clash"] = cstr(victim, "k")
 }
 
 func genYUsesCase1(r *Rng, tier string) Case {
@@ -899,6 +1057,8 @@ func genYUsesCase1(r *Rng, tier string) Case {
 		plain = append(plain, g.genNode(0, false))
 	}
 	u := &ufac{r: r, a2names: map[string]bool{}, plain: plain, dup: map[string]bool{}}
+	u.noDup = r.Chance(40)    // the copies a second uses makes share their names: no when / if-feature can be told apart on them
+	u.noScoped = r.Chance(35) // module-level groupings only: what uses of uses, augments with uses inside and second uses need
 	nf := r.Intn(3)
 	var feats, enabled []any
 	for i := 0; i < nf; i++ {
@@ -1000,8 +1160,34 @@ func genYUsesCase1(r *Rng, tier string) Case {
 	for _, g := range u.bGroup {
 		scan(carr(g.(map[string]any), "kids"))
 	}
+	var hasStatus func(kids []any) bool
+	hasStatus = func(kids []any) bool {
+		for _, k := range kids {
+			kn := k.(map[string]any)
+			if kn["status"] != nil {
+				return true
+			}
+			for _, a := range carr(kn, "augments") {
+				if a.(map[string]any)["status"] != nil || hasStatus(carr(a.(map[string]any), "kids")) {
+					return true
+				}
+			}
+			if hasStatus(carr(kn, "kids")) {
+				return true
+			}
+		}
+		return false
+	}
+	anyStatus := hasStatus(carr(holder, "kids"))
+	for _, g := range append(append([]any{}, u.mGroup...), u.bGroup...) {
+		if hasStatus(carr(g.(map[string]any), "kids")) {
+			anyStatus = true
+		}
+	}
 	for _, g := range u.bGroup {
-		if gm := g.(map[string]any); usedInB[cstr(gm, "n")] {
+		// ... and not next to status statements on uses / augments / nodes (a statement in the body of a grouping, also
+		// one that arrives through a uses, may not have a better status than the grouping)
+		if gm := g.(map[string]any); usedInB[cstr(gm, "n")] || anyStatus {
 			delete(gm, "gstatus")
 		}
 	}
@@ -1065,6 +1251,45 @@ func (u *ufac) pickWhen(kids []any, inM bool) string {
 	return w
 }
 
+// a `status` for a uses / augment that introduces `kids`: every node introduced that has no status of its own takes
+// it in the inline module.  With `own`, some of the leaves written directly among `kids` get a status of their own
+// first (which they keep).
+func (u *ufac) pickStatus(kids []any, own bool) string {
+	var names []string
+	u.introduced(kids, &names, 0)
+	if len(names) == 0 {
+		return ""
+	}
+	var all []map[string]any
+	for _, nm := range names {
+		var ns []map[string]any
+		findAllByName(u.plain, nm, &ns)
+		if len(ns) != 1 || ns[0]["status"] != nil {
+			return "" // (of two statuses that reach a node through nested uses the inner one counts: not played here)
+		}
+		all = append(all, ns[0])
+	}
+	st := pick(u.r, []string{"deprecated", "obsolete"})
+	if own {
+		for _, k := range kids {
+			kn := k.(map[string]any)
+			if kk := cstr(kn, "k"); (kk == "leaf" || kk == "leaf-list") && kn["status"] == nil && u.r.Chance(40) {
+				o := pick(u.r, []string{"current", "deprecated", "obsolete"})
+				kn["status"] = o
+				if pn := findByName(u.plain, cstr(kn, "n")); pn != nil {
+					pn["status"] = o
+				}
+			}
+		}
+	}
+	for _, pn := range all {
+		if pn["status"] == nil {
+			pn["status"] = st
+		}
+	}
+	return st
+}
+
 func renderUses(b *strings.Builder, n map[string]any, ind string) {
 	var body strings.Builder
 	for _, f := range carr(n, "iff") {
@@ -1072,6 +1297,9 @@ func renderUses(b *strings.Builder, n map[string]any, ind string) {
 	}
 	if w := cstr(n, "when"); w != "" {
 		body.WriteString(ind + "  when " + yq(w) + ";\n")
+	}
+	if st := cstr(n, "status"); st != "" {
+		body.WriteString(ind + "  status " + st + ";\n")
 	}
 	for _, rf := range carr(n, "refines") {
 		rm := rf.(map[string]any)
@@ -1098,6 +1326,9 @@ func renderUses(b *strings.Builder, n map[string]any, ind string) {
 		body.WriteString(ind + "  augment " + strings.Join(p, "/") + " {\n")
 		if w := cstr(am, "when"); w != "" {
 			body.WriteString(ind + "    when " + yq(w) + ";\n")
+		}
+		if st := cstr(am, "status"); st != "" {
+			body.WriteString(ind + "    status " + st + ";\n")
 		}
 		for _, k := range carr(am, "kids") {
 			renderAny(&body, k.(map[string]any), ind+"    ")
@@ -1204,6 +1435,9 @@ func renderAugments(b *strings.Builder, as []any) {
 		}
 		if w := cstr(am, "when"); w != "" {
 			b.WriteString("    when " + yq(w) + ";\n")
+		}
+		if st := cstr(am, "status"); st != "" {
+			b.WriteString("    status " + st + ";\n")
 		}
 		for _, k := range carr(am, "kids") {
 			renderAny(b, k.(map[string]any), "    ")
